@@ -57,4 +57,5 @@ def ite_step_tasks(tier, props, burrow=False):
     if burrow:
         out += [task(I, "ob_burrow", f"ite.burrow-step/{op}", props, op=op, amax=amax, tier=tier, budget_s=150 if tier == "quick" else 1500)
                 for op in list(itestep.BV_OPS) + ["Concat", "And", "Or"] + list(itestep.BIN_ONLY)]
+        out.append(task(I, "ob_burrow_sizes", "ite.burrow-step/size-changing-operations-over-operands-of-every-width", props, tier=tier))
     return out
